@@ -484,6 +484,12 @@ def gens_jobs(alpha, n, vals, parts):
             for i in range(1, parts + 1)]
 
 
+def eltgens_jobs(alpha, n, vals, parts):
+    """Rows {g, elt, conds, runs} for (<elt> for x in T), elt ranging over ExprSeq(alpha, n)."""
+    return [('eltgens-%s-%d-p%d' % (alpha, n, i), {'mode': 'eltgens', 'alpha': alpha, 'n': n, 'vals': vals, 'part': i, 'parts': parts})
+            for i in range(1, parts + 1)]
+
+
 def derivs_jobs(alpha, derivs, vals, gens=False, chunk=500):
     """Rows for trees given as derivations over the spec's alphabet (seeded random larger trees)."""
     return [('derivs-%s-%d' % (alpha, i), {'mode': 'genderivs' if gens else 'derivs', 'alpha': alpha, 'vals': vals, 'derivs': derivs[i:i + chunk]})
